@@ -421,3 +421,64 @@ Example C20_x_nonvacuous :
   shown KCounter (x_sh x) tA = 2 /\ ss_dirty (x_ss x) = false /\ ss_nsubs (x_ss x) = 1.
 Proof. vm_compute. repeat split; reflexivity. Qed.
 Print Assumptions C20_x_nonvacuous.
+
+(* ---------------------------------------------------------------- gauges *)
+(* A gauge value does not count emissions, so the conservation theorems exclude gauges.  What holds for gauges, for EVERY
+   schedule of either variant: each gauge series is an atomic register — its value is the left fold, from 0, of the Set / Add
+   operations that landed in it, in the order of their landing steps ([ltrace] lists the landings of the run in order). *)
+Theorem C20_gauge_register : forall c progs sched id,
+  c_kind c = KGauge ->
+  gval (sh (run_sched c (sys0 progs) sched)) id = fold_left gapply (on_id id (ltrace c (sys0 progs) sched)) 0.
+Proof. exact gauge_register. Qed.
+Print Assumptions C20_gauge_register.
+
+(* last writer wins among concurrent Sets: the value is the last landed Set plus the sum of the Adds landed after it *)
+Theorem C20_gauge_last_writer : forall l1 d l2 v0,
+  Forall (fun e => fst e = EAdd) l2 ->
+  fold_left gapply (l1 ++ (ESet, d) :: l2) v0 = d + fold_right (fun e a => snd e + a) 0 l2.
+Proof. exact gauge_last_set. Qed.
+Print Assumptions C20_gauge_last_writer.
+
+(* Add/Sub conservation: a series in which only Adds landed holds exactly their sum (no lost update) *)
+Theorem C20_gauge_add_conservation : forall l,
+  Forall (fun e => fst e = EAdd) l -> fold_left gapply l 0 = fold_right (fun e a => snd e + a) 0 l.
+Proof. exact gauge_adds. Qed.
+Print Assumptions C20_gauge_add_conservation.
+
+Example C20_gauge_nonvacuous :
+  let c := {| c_kind := KGauge; c_cap := 2; c_nlabels := 1; c_buckets := []; c_variant := Repaired |} in
+  let progs := [[OResolve tA; OEmitH 0 EAdd 1; OEmitH 0 EAdd 2]; [OResolve tA; OEmitH 0 ESet 10]; [OResolve tA; OEmitH 0 EAdd 4]] in
+  let sched := (repeat 0 6 ++ repeat 1 6 ++ repeat 2 6 ++ repeat 0 4)%nat in
+  let x := run_sched c (sys0 progs) sched in
+  quiescent x = true /\ on_id 0 (ltrace c (sys0 progs) sched) = [(EAdd, 1); (ESet, 10); (EAdd, 4); (EAdd, 2)] /\ gval (sh x) 0 = 16.
+Proof. vm_compute. repeat split; reflexivity. Qed.
+Print Assumptions C20_gauge_nonvacuous.
+
+(* ---------------------------------------------------------------- non-vacuity of the remaining implications *)
+Example C20_conc_series_distinct_nonvacuous :
+  let x := run_sched (cfg_of Repaired 2) (sys0 [[OResolve tA]; [OResolve tB]; [OResolve tA]]) (repeat 0 5 ++ repeat 1 5 ++ repeat 2 5)%nat in
+  length (smap (sh x)) = 2%nat /\ option_map h_tuple (get_handle (sh x) 0) = Some tA /\ option_map h_tuple (get_handle (sh x) 1) = Some tB.
+Proof. vm_compute. repeat split; reflexivity. Qed.
+Print Assumptions C20_conc_series_distinct_nonvacuous.
+
+Example C20_emit_nonblocking_nonvacuous :
+  let th := thread0 [OResolve tA; OEmitH 0 EAdd 1] in
+  finished th = false /\ budget th = 14%nat /\ budget (snd (tstep (cfg_of Repaired 1) shared0 th)) = 13%nat.
+Proof. vm_compute. repeat split; reflexivity. Qed.
+Print Assumptions C20_emit_nonblocking_nonvacuous.
+
+Example C20_tick_never_blocks_nonvacuous :
+  let b := sub_publish_n 3 (sub_new 1) in sb_len b = 1%nat /\ sb_dropped b = 2 /\ sb_unsub (sub_new 1) = false.
+Proof. vm_compute. repeat split; reflexivity. Qed.
+Print Assumptions C20_tick_never_blocks_nonvacuous.
+
+(* tuple identity on EVERY path of WithLabelValues (fast path Load, own LoadOrStore, somebody else's entry found by
+   LoadOrStore): the k-th handle a client holds carries the tuple of its k-th (arity-correct) WithLabelValues call
+   ([t_asked] is the client's own list of the tuples it asked for, appended when the call starts) *)
+Theorem C20_conc_handle_tuple : forall c progs sched,
+  c_variant c = Repaired -> wf_progs c progs = true ->
+  let x := run_sched c (sys0 progs) sched in
+  forall i th k id, nth_error (ths x) i = Some th -> nth_error (t_slots th) k = Some (RH id) ->
+  exists h, get_handle (sh x) id = Some h /\ nth_error (t_asked th) k = Some (h_tuple h).
+Proof. exact conc_handle_tuple. Qed.
+Print Assumptions C20_conc_handle_tuple.
